@@ -89,7 +89,7 @@ pub enum Op {
     IterClone(IterKind, usize, Vec<bool>, Vec<bool>),
     ProbeTypes(usize, usize),
     DownWrong(usize, TKind, usize),
-    SwapWrong(usize, usize),
+    SwapWrong(usize, usize, usize),
     Write(usize, usize, usize),
     Read(usize, usize, usize),
     Swap(usize, usize, usize, usize, usize),
@@ -269,7 +269,8 @@ pub fn parse_op(t: &[&str]) -> Op {
         ["iter_clone", k, v, p1, p2] => Op::IterClone(parse_ik(k), u(v), parse_pat_ro(p1), parse_pat_ro(p2)),
         ["probe_types", v, i] => Op::ProbeTypes(u(v), u(i)),
         ["down_wrong", v, k, i] => Op::DownWrong(u(v), parse_tkind(k), u(i)),
-        ["swap_wrong", v, i] => Op::SwapWrong(u(v), u(i)),
+        ["swap_wrong", v, i] => Op::SwapWrong(u(v), u(i), 0),
+        ["swap_wrong", v, i, k] => Op::SwapWrong(u(v), u(i), match *k { "w" => 0, "raw" => 1, "rawrev" => 2, _ => panic!("bad swap_wrong kind") }),
         ["write", hk, v, i] => Op::Write(u(hk), u(v), u(i)),
         ["read", hk, v, i] => Op::Read(u(hk), u(v), u(i)),
         ["swap", pr, v1, i, v2, j] => Op::Swap(u(pr), u(v1), u(i), u(v2), u(j)),
